@@ -18,7 +18,7 @@ PROPERTY = {
     ],
     'bounds': {'scenarios': '25 merge histories (one through an !include on the virtual file system) (evaluated through Config and through the low-level EvalContext route) of 1..3 stages: call/bind/eval/f-string/import defined, argument override by mapping / list, placeholder filled later, target override by string / by another function node, plain mapping replaced by a call, data referenced by !xref / by evaluated code supplied before or after, overridden data',
                'flags': 'safe flag of each source symbolic; one !unsafe marker (symbolic presence) on the node / its wrapper / an argument / the referenced data of a selected stage'},
-    'outside': ['!rec nodes, unsafe includes (C06 covers include safety inheritance)', 'more than 3 stages'],
+    'outside': ['!rec nodes, unsafe includes (C06 covers include safety inheritance)', 'more than 3 stages', 'evaluated code that reaches into the raw evaluation context on purpose (ayns.cfg / ayns.ctx): neither a resolved name nor a call argument'],
     'per_split_timeout': {'quick': 600, 'thorough': 1800},
     'wall_budget': {'quick': 1500, 'thorough': 7000},
 }
